@@ -252,7 +252,7 @@ class C09(BaseCheck):
             first = r.choice(['9', '_', '-', '0'])
             out.append((text[:a] + first + text[a + 1:], 'bad-first-char-of-name',
                         'first character of a tag/column name replaced by %r (names start with a lower-case ASCII letter)' % first))
-            a, b = r.choice(names)
+            a, b = r.choice(by.get('name', []))      # any name, metadata keys included (no legal reading starts with such a character)
             ch = r.choice([u'\u00e9', u'\u00b5', u'\u0436', u'\uff11', u'\u00df', u'\u0663'])
             out.append((text[:b] + ch + text[b:], 'nonascii-in-name',
                         'non-ASCII alphanumeric %r appended to a tag/column name (names are ASCII letters, digits, underscore) at %d' % (ch, b)))
